@@ -118,6 +118,12 @@ class Gen:
             tail = ("cmd", self.rng.choice(self.cmd_texts))
         else:
             tail = ("nt", self.rng.choice(self.undefined or ["U"]))
+        if tail[0] in ("alt", "fb") and self.rng.random() < 0.3:
+            # repetition / option inside the word: `pre(a | b)...`, `--k=[v | w]`, possibly followed by more of the word
+            tail = (self.rng.choice(["many", "opt"]), tail)
+            if self.rng.random() < 0.4:
+                return ("sub", [head, tail, ("lit", self.rng.choice([",end", ";", ":z"]), None)])
+            return ("sub", [head, tail])
         if tail[0] == "alt" and self.rng.random() < 0.25:
             # a unit suffix that carries the description of the whole option
             return ("sub", [head, tail, ("lit", self.rng.choice(["k", "ms", "%"]), self.rng.choice(DESCRS))])
